@@ -19,7 +19,11 @@ PROPS["C20"] = dict(
                  "oracle (b): the destination is sandbox/d1/.../d8; (path, type, permission bits, and for non-directories size, mtime, content hash) "
                  "of everything in the sandbox outside the destination subtree - decoy files and directories at every level, the archive "
                  "itself - is identical before and after UnzipToFolder, whatever it returns; absolute targets outside the sandbox are watched "
-                 "one by one; an error is accepted, a panic is not",
+                 "one by one; an error is accepted, a panic is not. One sandbox skeleton serves all archive cases of a test process: the "
+                 "destination subtree and the archive are removed after every case, the skeleton is compared with its pristine snapshot "
+                 "before every case and rebuilt after any violation (a replay builds its own sandbox); tree cases get a fresh directory each",
+                 "violation messages are functions of the case alone (scratch directory names replaced by {ROOT}/{BASE}, no mtime values): "
+                 "rapid only shrinks failures whose message is reproducible",
                  "Linux file system semantics (backslash is an ordinary name byte, names are case sensitive)"],
     units=[
         dict(name="tree", run="^TestC20TreeRapid$", checks=(500, 2000), shards=(4, 16), timeout=(200, 1200), shrinktime=("15s", "40s")),
